@@ -383,7 +383,7 @@ fn chains<P: PathVal>(api: &str, root: &P, depth: usize) -> (u64, u64, Vec<Found
 pub fn run_c06(ctx: &Ctx) -> i32 {
     let info = ctx.info("C06", "model_checking");
     let thorough = ctx.tier == Tier::Thorough;
-    let l = if thorough { 8 } else { 6 };
+    let l = if thorough { 8 } else { 7 };
     let la = if thorough { 4 } else { 3 };
     let depth = 3;
     let mut found = vec![];
